@@ -9,7 +9,7 @@ import subprocess
 import sys
 import tempfile
 
-WT = '/tmp/wt/mine2'
+WT = os.environ.get('BENIGN_WT', '/tmp/wt/mine2')
 
 
 def sh(cmd):
